@@ -2,7 +2,8 @@
 FUNCTIONS = ['payload.Payload.encode', 'base_server.BaseServer._ok',
              'base_server.BaseServer._gzip', 'base_server.BaseServer._deflate',
              'base_server.BaseServer._bad_request', 'base_server.BaseServer._method_not_found',
-             'base_server.BaseServer._unauthorized', 'server.Server.handle_request']
+             'base_server.BaseServer._unauthorized', 'server.Server.handle_request',
+             'async_server.AsyncServer.handle_request']
 
 LEVEL_TEXT = ('Payload.encode (JSONP branch) returns exactly ___eio[<index>](<json.dumps(payload text)>); - one '
               'call statement whose single argument is a string literal of the joined packet encodings; _ok '
@@ -18,5 +19,5 @@ LEVEL_NOTE = ('assumed library facts: json.dumps of a str is a complete JavaScri
               'trusted wrappers); "offered" = listed by name, parameters such as q=0 ignored (DESIGN 5.3); aliasing is tracked only for module-/class-level list and '
               'dict constants reached by a direct attribute read (a value merged at a join point or rebuilt '
               'by a type coercion loses its origin)')
-NOT_DECIDED = ['AsyncServer.handle_request compression block', 'q-values in Accept-Encoding']
+NOT_DECIDED = ['q-values in Accept-Encoding']
 ASSUMPTIONS = [LEVEL_NOTE]
